@@ -117,6 +117,11 @@ func (s C10) Events(env world.Env, mm mc.Model) []string {
 		acctForms = []string{"ok", "bech", "slash", "x"}
 	}
 	for _, x := range c10Who {
+		if s.Full { // q: a well-formed post whose viewer map gives the owner's id a key full of JSON metacharacters
+			for _, a := range accts {
+				add("Post:%s:root:%s:q:c1", x, a)
+			}
+		}
 		add("Provision:%s", x)
 		for _, parent := range []string{"root", "c1"} {
 			for _, a := range accts {
@@ -268,7 +273,7 @@ func (s C10) Apply(env world.Env, mm mc.Model, ev string) mc.Step {
 	acctField := func(a, form string) string {
 		h := ftAcct(w.A(a).Bech)
 		switch form {
-		case "ok":
+		case "ok", "q":
 			return h
 		case "bech":
 			return w.A(a).Bech
@@ -311,6 +316,9 @@ func (s C10) Apply(env world.Env, mm mc.Model, ev string) mc.Step {
 		childHash := hexsha(p[5])
 		ed := jmap(map[string]string{ftEditorID(c10Track, x.Bech): "k" + p[1]})
 		vi := jmap(map[string]string{ftViewerID(c10Track, x.Bech): "k" + p[1]})
+		if p[4] == "q" {
+			vi = jmap(map[string]string{ftViewerID(c10Track, w.A(p[3]).Bech): `aa","` + ftViewerID(c10Track, w.A("S").Bech) + `":"bb`})
+		}
 		contents := "posted-by-" + p[1]
 		msg = fttypes.NewMsgPostFile(x.Bech, acct, parent, childHash, contents, vi, ed, c10Track)
 		if pf, ok := before[parent+"/"+ftOwner(parent, acct)]; ok {
